@@ -39,6 +39,13 @@ CUSTOM = [
     {"options": {"F_name_impl_template": "{F_name_scope}impl_{underscore_name}{function_suffix}{template_suffix}"}},
     {"options": {"F_force_wrapper": True}, "format": {"F_result": "val"}},
 ]
+# class-level customisations (file names, derived-type names) that an instantiation may also carry
+INST_CUSTOM = [
+    {"options": {"C_header_filename_class_template": "hdr{file_scope}.{C_header_filename_suffix}"}},
+    {"options": {"C_impl_filename_class_template": "imp{file_scope}.{C_impl_filename_suffix}"}},
+    {"options": {"F_derived_name_template": "{underscore_name}_t"}},
+    {"options": {"C_name_scope_template": "s_{cxx_class}_"}} if False else {"options": {"F_force_wrapper": True, "debug": True}},
+]
 CONTAINERS = ["library", "namespace", "class", "template"]
 
 
@@ -166,6 +173,9 @@ ATTR_DECLS = [
     "void buf(char *text +intent(out)+charlen(20))",
     "int *owned() +owner(caller)+dimension(3)",
     "void vals(double *a +intent(inout)+dimension(n), int n +value)",
+    "void reg(void (*cb)(int i) +external)",
+    "int apply(int (*fn)(int x) +external, int n +intent(in))",
+    "void each(double *v +intent(inout)+rank(1), void (*visit)(double x) +external)",
     "Box() +name(create)",
     "~Box() +name(destroy)",
 ]
@@ -206,6 +216,13 @@ def check(inp):
             else:
                 pass
         return compare(run(a), run(b), "%s on the %s of %s vs on each of %s" % (custom, place, cont, funcs[:inside] if place == "block" else funcs))
+    if kind == "inst":
+        # a class template: the customisation on EVERY instantiation equals the customisation on the class itself
+        funcs, custom = inp["funcs"], inp["custom"]
+        a = wrap_container("template", [fdecl(f) for f in funcs], custom)
+        b = wrap_container("template", [fdecl(f) for f in funcs])
+        b["declarations"][0]["cxx_template"] = [dict({"instantiation": i_}, **copy.deepcopy(custom)) for i_ in ("<int>", "<double>")]
+        return compare(run(a), run(b), "%s on the class template vs on each of its instantiations" % (custom,))
     if kind == "attrs":
         decl, cont = inp["decl"], inp["container"]
         plain, attrs, fattrs = attr_split(decl)
@@ -238,6 +255,8 @@ def candidates(seed, around=None):
             if cont != "namespace" and "_template" in str(cu):
                 continue
             yield {"kind": "scope", "container": cont, "funcs": fs[:3], "custom": cu, "place": "container", "inside": 3}
+    for cu in CUSTOM + INST_CUSTOM:
+        yield {"kind": "inst", "funcs": [f for f in FUNCS][:3], "custom": cu}
     for d in ATTR_DECLS:
         ctor = d.startswith(("Box", "~Box"))
         for cont in (["class"] if ctor else ["library", "class", "template"]):
